@@ -9,7 +9,10 @@ from .trig import Trig
 
 COMMONS = {'clpt_donnell_bc1': 'compmech/conecyl/clpt/clpt_commons_bc1.pyx', 'clpt_donnell_bc2': 'compmech/conecyl/clpt/clpt_commons_bc2.pyx',
            'clpt_donnell_bc3': 'compmech/conecyl/clpt/clpt_commons_bc3.pyx', 'clpt_donnell_bc4': 'compmech/conecyl/clpt/clpt_commons_bc4.pyx'}
-LINEAR = {k: 'compmech/conecyl/clpt/%s_linear.pyx' % k for k in COMMONS}
+for _bc in ('bc1', 'bc2', 'bc3', 'bc4'):
+    COMMONS['clpt_sanders_' + _bc] = 'compmech/conecyl/clpt/clpt_commons_%s.pyx' % _bc
+    COMMONS['fsdt_donnell_' + _bc] = 'compmech/conecyl/fsdt/fsdt_commons_%s.pyx' % _bc
+LINEAR = {k: 'compmech/conecyl/%s/%s_linear.pyx' % (k.split('_')[0], k) for k in COMMONS}
 
 
 class ConePolicy:
